@@ -153,7 +153,7 @@ Fixpoint all_items (acc : option (list item)) (body : list stmt) : option (list 
   match body with
   | [] => acc
   | SSetAll _ its :: r => all_items (Some its) r
-  | SAddAll _ its :: r => all_items (match acc with Some e => Some (e ++ its) | None => None end) r
+  | SAddAll _ its :: r | SExtAll _ its :: r => all_items (match acc with Some e => Some (e ++ its) | None => None end) r
   | _ :: r => all_items acc r
   end.
 
@@ -164,6 +164,7 @@ Proof.
   - destruct (bare && is_init && match asn with None => true | Some _ => false end); auto.
     destruct (path_eqb _ _); auto.
   - destruct asn; auto.
+  - destruct (exports st) eqn:E; simpl; rewrite ?E; auto.
   - destruct (exports st) eqn:E; simpl; rewrite ?E; auto.
 Qed.
 
@@ -181,6 +182,7 @@ Proof.
       split; [simpl; f_equal; auto|discriminate].
     + destruct asn; simpl in H; apply in_app_or in H; destruct H as [H|[H|[]]]; auto;
         right; eexists; (split; [left; reflexivity|]); (split; [simpl; f_equal; auto|discriminate]).
+    + destruct (exports st); auto.
     + destruct (exports st); auto.
   - right. exists s'. split; [right; auto|auto].
 Qed.
